@@ -47,12 +47,16 @@ template <class Scalar> static std::vector<Res> run_t(const Pair &P, const C20Ca
   PM pr, ps; for (auto &kv : c.rich.params) pr[kv.first] = Q((long double)(Scalar)kv.second); for (auto &kv : c.simple.params) ps[kv.first] = Q((long double)(Scalar)kv.second);
   long double al[4], bl[4]; double ad[4], bd[4]; Q aq[4], bq[4];
   for (int i = 0; i < 4; i++) { al[i] = (long double)(Scalar)c.rich.pt[i]; ad[i] = (double)al[i]; aq[i] = Q(al[i]); bl[i] = (long double)(Scalar)c.simple.pt[i]; bd[i] = (double)bl[i]; bq[i] = Q(bl[i]); }
-  // evaluated alternately: rich, simple, rich, simple ...
+  // evaluated alternately: rich, simple, rich, simple ...; then every non-zero parameter of both handles is re-set (x 1.0625) through
+  // masa_set_param and the comparison is repeated at the same point: a value frozen at the first evaluation shows up reproducibly
+  for (int phase = 0; phase < 2; phase++) {
+  if (phase == 1) { Quiet q; masa_select_mms<Scalar>("rich"); for (auto &kv : pr) { Scalar v = (Scalar)((long double)kv.second.v * 1.0625L); masa_set_param<Scalar>(kv.first, v); kv.second = Q((long double)v); }
+    masa_select_mms<Scalar>("simple"); for (auto &kv : ps) { Scalar v = (Scalar)((long double)kv.second.v * 1.0625L); masa_set_param<Scalar>(kv.first, v); kv.second = Q((long double)v); } }
   for (auto &lp : P.labels) { const Ev *er = find_ev(R, lp.first), *es = find_ev(S, lp.second); if (!er || !es) continue; Res r; r.label = lp.first + " vs " + lp.second;
     { Quiet q; masa_select_mms<Scalar>("rich"); r.a = sizeof(Scalar) > 8 ? er->ld(al) : (long double)er->d(ad); masa_select_mms<Scalar>("simple"); r.b = sizeof(Scalar) > 8 ? es->ld(bl) : (long double)es->d(bd); }
     Q ma = er->ref(pr, aq), mb = es->ref(ps, bq);           // the AD oracle supplies the SCALE only
     __float128 scale = ma.m + mb.m; __float128 diff = fabsq((__float128)r.a - (__float128)r.b);
-    r.err = diff == 0 ? 0 : (scale > 0 ? (double)(diff / scale / (__float128)eps) : 1e300); r.bad = !(r.err <= K) || !std::isfinite(r.a) || !std::isfinite(r.b); out.push_back(r); }
+    r.err = diff == 0 ? 0 : (scale > 0 ? (double)(diff / scale / (__float128)eps) : 1e300); r.bad = !(r.err <= K) || !std::isfinite(r.a) || !std::isfinite(r.b); if (phase) r.label = "after set_param: " + r.label; out.push_back(r); } }
   return out;
 }
 static std::vector<Res> run(const Pair &P, const C20Case &c, double K) { return c.rich.prec ? run_t<long double>(P, c, K) : run_t<double>(P, c, K); }
